@@ -1485,6 +1485,51 @@ func ruleGRDscan(w *World, r *Report) {
 			r.Cond(okArg, "GRD-scan", fmt.Sprintf("%s:resync-start#%d", shortName(caller.Obj), k), w.Pos(c.Pos()), "the scan starts at the last valid offset (the value the repair would truncate to)", shortName(caller.Obj)+" starts the forward scan at a position other than the last valid offset (for example past the frame that just failed, computed from its own length field): a damaged length field that still points inside the file makes the scan jump over intact frames, whose commands are silently dropped")
 		}
 	}
+	// the window read happens at the scan's own position: whatever else in the loop uses the same file (probing a
+	// candidate with ReadFrame, seeking to it) moves the shared offset, so each window read must be preceded, in its
+	// own iteration, by a Seek
+	{
+		reads := findInstrs(fn, func(in ssa.Instruction) bool { return isCallTo(in, "os", "File.Read") })
+		isSeek := func(in ssa.Instruction) bool { return isCallTo(in, "os", "File.Seek") }
+		for i, rd := range reads {
+			h := enclosingLoop(fn, rd.Block())
+			if h == nil {
+				continue
+			}
+			body := loopBlocks(fn, h)
+			file := rd.(*ssa.Call).Call.Args[0]
+			movers := 0
+			for b := range body {
+				for _, in := range b.Instrs {
+					c, ok := in.(*ssa.Call)
+					if !ok || in == rd {
+						continue
+					}
+					for _, a := range c.Call.Args {
+						for {
+							if mi, ok := a.(*ssa.MakeInterface); ok {
+								a = mi.X
+							} else if ci, ok := a.(*ssa.ChangeInterface); ok {
+								a = ci.X
+							} else {
+								break
+							}
+						}
+						if a == file || sameValue(a, file) {
+							movers++
+						}
+					}
+				}
+			}
+			if movers == 0 {
+				r.Ok("GRD-scan", fmt.Sprintf("resyncAOF:window-read#%d:positioned", i+1), w.Pos(rd.Pos()), "nothing else in the scan loop uses the file: sequential reads stay at the scan position")
+				continue
+			}
+			rr := rd
+			found, wit := pathQuery{fn: fn, target: func(in ssa.Instruction) bool { return in == rr }, avoid: isSeek}.find(ipos{h, -1})
+			r.Cond(!found, "GRD-scan", fmt.Sprintf("resyncAOF:window-read#%d:positioned", i+1), w.Pos(rd.Pos()), "every window read is preceded in its iteration by a Seek (candidate probes move the shared file offset)", "resyncAOF reads the next scan window without re-positioning the file although the loop also probes candidates through the same handle: after a false candidate the next window is read from the wrong place while the base position advances as if it were contiguous — intact frames behind a damaged region that contains a marker byte are missed and dropped", w.witness(wit)...)
+		}
+	}
 	// n := file.Read(buf) #0
 	var nVal ssa.Value
 	for _, in := range findInstrs(fn, func(in ssa.Instruction) bool { return isCallTo(in, "os", "File.Read") }) {
@@ -1771,6 +1816,130 @@ func ruleCDC8(w *World, r *Report) {
 				pos = w.Pos(at)
 			}
 			r.Cond(!bad, "CDC-8", fmt.Sprintf("arm:VDEL:tombstone#%d:independent-of-pending-entry", i+1), pos, "the deletion is recorded for the restored index whether or not this log holds a pending entry for the id", "the VDEL arm records the deletion for a snapshot-restored index only on one outcome of its pending-entry lookup: after SaveSnapshot, a metadata update followed by a delete of the same vector leaves no tombstone, and the deleted vector is back after restart")
+		}
+	}
+	// apply phase: a recorded deletion is applied whether or not the log holds a later entry for the id (the re-add is
+	// rejected as a duplicate by the index if the old version is still registered, and that error is swallowed)
+	if fn := w.SSAFunc(fi.Obj); fn != nil {
+		inSwitch := func(p token.Pos) bool { return p >= rt.Switch.Pos() && p <= rt.Switch.End() }
+		fieldOfLoad := func(v ssa.Value) string {
+			u, ok := v.(*ssa.UnOp)
+			if !ok || u.Op != token.MUL {
+				return ""
+			}
+			fa, ok := u.X.(*ssa.FieldAddr)
+			if !ok {
+				return ""
+			}
+			_, f := structFieldName(fa.X.Type(), fa.Field)
+			return f
+		}
+		var dels []ssa.Instruction
+		var pend []*ssa.Lookup
+		for _, b := range fn.Blocks {
+			for _, in := range b.Instrs {
+				if inSwitch(in.Pos()) {
+					continue
+				}
+				if c, ok := in.(*ssa.Call); ok {
+					if o := calleeObj(&c.Call); o != nil && o.Name() == "Delete" && (o == del1 || relPkg(o) == "pkg/core") {
+						dels = append(dels, in)
+					}
+				}
+				if lk, ok := in.(*ssa.Lookup); ok && lk.CommaOk && fieldOfLoad(lk.X) == "entries" {
+					pend = append(pend, lk)
+				}
+			}
+		}
+		for i, d := range dels {
+			bad := false
+			var at token.Pos
+			for _, lk := range pend {
+				okv := extractOfValue(lk, 1)
+				if okv == nil {
+					continue
+				}
+				tr, fl := condEdges(okv)
+				for _, e := range append(tr, fl...) {
+					sb := e.from.Succs[e.succ]
+					if len(sb.Preds) == 1 && (sb == d.Block() || sb.Dominates(d.Block())) {
+						bad, at = true, lk.Pos()
+					}
+				}
+			}
+			pos := w.Pos(d.Pos())
+			if bad {
+				pos = w.Pos(at)
+			}
+			r.Cond(!bad, "CDC-8", fmt.Sprintf("apply:delete#%d:independent-of-pending-entry", i+1), pos, "a recorded deletion is applied to the restored index whether or not the log holds an entry for the id", "replayAOF applies a recorded deletion to the snapshot-restored index only on one outcome of a look-up in the pending entries: delete + re-add of an id after a snapshot leaves the old version registered, the re-add is rejected as a duplicate (the error is swallowed), and the restart shows the old vector and metadata")
+		}
+		// VCREATE arm: a create record for a name that already has aggregation state (a duplicate create that the live
+		// engine rejected after journaling it) must not rewrite that state: the arm writes configuration only into a
+		// state object it allocated itself
+		if arm := rt.Arms["VCREATE"]; arm != nil {
+			n, badN := 0, 0
+			var badPos token.Pos
+			for _, b := range fn.Blocks {
+				for _, in := range b.Instrs {
+					st, ok := in.(*ssa.Store)
+					if !ok || st.Pos() < arm.Clause.Pos() || st.Pos() > arm.Clause.End() {
+						continue
+					}
+					fa, ok := st.Addr.(*ssa.FieldAddr)
+					if !ok {
+						continue
+					}
+					owner, _ := structFieldName(fa.X.Type(), fa.Field)
+					if !strings.HasSuffix(owner, "indexState") {
+						continue
+					}
+					n++
+					for _, leaf := range valueRoots(fa.X) {
+						if _, fresh := leaf.(*ssa.Alloc); !fresh {
+							badN++
+							badPos = st.Pos()
+						}
+					}
+				}
+			}
+			// ... and registers its state only for a name the log does not know yet
+			var regs []ssa.Instruction
+			for _, b := range fn.Blocks {
+				for _, in := range b.Instrs {
+					mu, ok := in.(*ssa.MapUpdate)
+					if !ok || mu.Pos() < arm.Clause.Pos() || mu.Pos() > arm.Clause.End() {
+						continue
+					}
+					if mt, ok := mu.Map.Type().Underlying().(*types.Map); ok && strings.HasSuffix(mt.Elem().String(), "indexState") {
+						regs = append(regs, in)
+					}
+				}
+			}
+			isAggLookup := func(in ssa.Instruction) bool {
+				lk, ok := in.(*ssa.Lookup)
+				if !ok || !lk.CommaOk {
+					return false
+				}
+				mt, ok := lk.X.Type().Underlying().(*types.Map)
+				return ok && strings.HasSuffix(mt.Elem().String(), "indexState")
+			}
+			for i, rg := range regs {
+				rr := rg
+				ok, wit := mustPassGuard(fn, func(in ssa.Instruction) bool { return in == rr }, isAggLookup, func(in ssa.Instruction) ssa.Value { return extractOfValue(in.(*ssa.Lookup), 1) }, false, nil)
+				r.Cond(ok, "CDC-8", fmt.Sprintf("arm:VCREATE:registers-only-unknown-names#%d", i+1), w.Pos(rg.Pos()), "the state is put into the aggregation map only on the not-present edge of a look-up", "the VCREATE arm (re)registers the aggregation state of a name the log already knows: a duplicate VCREATE — journaled by the live engine before it rejected the request with 'already exists' — replaces the state that holds every vector journaled so far, and the next restart loses them", w.witness(wit)...)
+			}
+			if len(regs) == 0 {
+				r.Und("CDC-8", "arm:VCREATE:registers-only-unknown-names", w.Pos(arm.Clause.Pos()), "the VCREATE arm no longer registers an aggregation state (shape not recognised)")
+			}
+			if n == 0 {
+				r.Und("CDC-8", "arm:VCREATE:fresh-state-only", w.Pos(arm.Clause.Pos()), "the VCREATE arm no longer stores configuration into an aggregation state (shape not recognised)")
+			} else {
+				pos := w.Pos(arm.Clause.Pos())
+				if badN > 0 {
+					pos = w.Pos(badPos)
+				}
+				r.Cond(badN == 0, "CDC-8", "arm:VCREATE:fresh-state-only", pos, fmt.Sprintf("all %d configuration stores of the arm go into a state object the arm allocated itself", n), "the VCREATE arm writes configuration into an aggregation state it looked up: a duplicate VCREATE (journaled by the live engine before it rejected the request) rewrites metric, precision and options of the existing index on the next restart")
+			}
 		}
 	}
 	// KV: a DEL must reach the restored store, not only the aggregation map of this log
